@@ -132,6 +132,7 @@ class BlockCSR(Contract):
     fn = 'matrix/__init__:assemble_block_csr'
     split_conjunctions = True
     max_paths = 400
+    sym_unpack = True  # `i, j = block_rowptr[irow:irow+2]`: fork on the length of the slice (ValueError unless it is 2)
 
     def __init__(self, grid, kinds=None):
         self.grid = tuple(grid)
